@@ -31,7 +31,10 @@ func genC10(seed uint64) *Scenario {
 		// several rule-breaking edits per document: with continue-on-errors every rule runs, so one validation exercises
 		// many rules (and several offenders of one rule are what order dependence needs)
 		nedits := pick(r, []int{0, 1, 2, 3, 4, 6, 8, 10, 12})
-		if r.Chance(250) {
+		if r.Chance(200) {
+			d, _ := GenSpecSameRule(r)
+			doc = js(d)
+		} else if r.Chance(250) {
 			b, w := GenSpecTwin(r, nedits)
 			doc = js(b)
 			if w != nil {
